@@ -257,7 +257,7 @@ theorem transformNode_docString (comments : List Comment) (items : List (Key × 
   simp only [hsep, hm, hd, need_some, pure_bind, mapM'_need_text _ _ ls hls, getLocation_none]
   cases m <;> simp
 
-theorem getTokens_append (a b : List (Key × Val)) (k : Kind) :
+theorem dgetTokens_append (a b : List (Key × Val)) (k : Kind) :
     getTokens (a ++ b) k = getTokens a k ++ getTokens b k := by
   simp [getTokens, getItems]
 
@@ -266,7 +266,7 @@ theorem getTokens_others_self (others : List Token) :
   induction others with
   | nil => rfl
   | cons t ts ih =>
-    have := getTokens_append [(Key.tok .Other, Val.tok t)]
+    have := dgetTokens_append [(Key.tok .Other, Val.tok t)]
       (ts.map (fun t => (Key.tok .Other, Val.tok t))) .Other
     simp only [List.map_cons, List.singleton_append] at this ⊢
     rw [this, ih]
@@ -277,7 +277,7 @@ theorem getTokens_others_sep (others : List Token) :
   induction others with
   | nil => rfl
   | cons t ts ih =>
-    have := getTokens_append [(Key.tok .Other, Val.tok t)]
+    have := dgetTokens_append [(Key.tok .Other, Val.tok t)]
       (ts.map (fun t => (Key.tok .Other, Val.tok t))) .DocStringSeparator
     simp only [List.map_cons, List.singleton_append] at this ⊢
     rw [this, ih]
@@ -287,14 +287,14 @@ theorem getTokens_shape_sep (op cl : Token) (others : List Token) :
     getTokens ([(Key.tok .DocStringSeparator, Val.tok op)] ++
         others.map (fun t => (Key.tok .Other, Val.tok t)) ++
         [(Key.tok .DocStringSeparator, Val.tok cl)]) .DocStringSeparator = [op, cl] := by
-  rw [getTokens_append, getTokens_append, getTokens_others_sep]
+  rw [dgetTokens_append, dgetTokens_append, getTokens_others_sep]
   rfl
 
 theorem getTokens_shape_other (op cl : Token) (others : List Token) :
     getTokens ([(Key.tok .DocStringSeparator, Val.tok op)] ++
         others.map (fun t => (Key.tok .Other, Val.tok t)) ++
         [(Key.tok .DocStringSeparator, Val.tok cl)]) .Other = others := by
-  rw [getTokens_append, getTokens_append, getTokens_others_self]
+  rw [dgetTokens_append, dgetTokens_append, getTokens_others_self]
   simp [getTokens, getItems]
 
 end GV.Lemmas
